@@ -76,7 +76,7 @@ Init0(gg, bytes, o) ==
   /\ it = 0 /\ endIt = 0 /\ cur = -1 /\ line = 1 /\ col = 1
   /\ mode = "normal" /\ ph = "top" /\ status = "run" /\ msgs = <<>> /\ red = -1 /\ mxd = 1 /\ ev = <<"tau">>
 
-NeedTerm == ph = "top" /\ mode # "recovery" /\ it = endIt
+NeedTerm == (ph = "top" /\ mode # "recovery" /\ it = endIt) \/ ph = "lexed"
 HaveTerm == ph = "act" \/ (ph = "top" /\ (mode = "recovery" \/ it # endIt))
 T == IF mode = "recovery" THEN ErrOf(g) ELSE cur
 Cell == RCell(g, Top(stack), T)
@@ -86,8 +86,21 @@ SameAction(rc, sc) == rc[1] = sc[1] /\ (rc[1] = "reduce" => rc[2] = sc[2])
 CellsAgree == SameAction(Cell, SpecCellNow)
 
 (************************* get_current_term *******************************)
+\* use_lexer<L>: the custom lexer is asked exactly once per needed term, at the offset after whitespace skipping,
+\* with the source point of that offset, and never at the end of the input (observable call of L::match)
+LexCall ==
+  /\ status = "run" /\ ph = "top" /\ NeedTerm /\ GR(g).lexobs
+  /\ LET p  == SkipWs(inp, it, WsSet(opt))
+         sp == SpUpd(inp, it, p, line, col)
+     IN /\ p < Len(inp)
+        /\ it' = p /\ line' = sp[1] /\ col' = sp[2]
+        /\ ev' = <<"lexcall", p, sp[1], sp[2], Len(inp) - p>>
+  /\ ph' = "lexed"
+  /\ UNCHANGED <<red, g, inp, opt, stack, sstack, vals, nodes, endIt, cur, mode, status, msgs>>
+
 GetTerm ==
   /\ status = "run" /\ NeedTerm
+  /\ (GR(g).lexobs => (ph = "lexed" \/ SkipWs(inp, it, WsSet(opt)) = Len(inp)))
   /\ LET p   == SkipWs(inp, it, WsSet(opt))
          sp  == SpUpd(inp, it, p, line, col)
      IN /\ line' = sp[1] /\ col' = sp[2] /\ it' = p
@@ -243,7 +256,7 @@ Undefined ==             \* R/R cell: the readme declares the behaviour undefine
   /\ status' = "undef" /\ ev' = <<"tau">> /\ ph' = "top"
   /\ UNCHANGED <<red, g, inp, opt, stack, sstack, vals, nodes, it, endIt, cur, line, col, mode, msgs>>
 
-DStep == GetTerm \/ ConsumeFailEof \/ ConsumeDiscard \/ SynErr \/ EnterRecovery \/ RecoverPop \/ LeaveConsume
+DStep == LexCall \/ GetTerm \/ ConsumeFailEof \/ ConsumeDiscard \/ SynErr \/ EnterRecovery \/ RecoverPop \/ LeaveConsume
          \/ Shift \/ TermValue \/ ShiftError \/ LeaveRecovery \/ EnterConsume \/ Reduce \/ Goto \/ Call \/ Accept \/ Undefined
 DNext == DStep /\ mxd' = IF Len(stack') > mxd THEN Len(stack') ELSE mxd
 
